@@ -216,3 +216,124 @@ From FG Require UciModel.
 Theorem C12_model_constants_dumped :
   Z.of_nat UciModel.MaxMoves = c_max_moves /\ Z.of_nat UciModel.RebaseAt = (c_max_moves - c_max_depth - 2)%Z.
 Proof. exact ConstTie.ucimodel_constants_dumped. Qed.
+
+(* ---------------------------------------------------------------------------------------------------------
+   The clause "after ucinewgame a fixed-depth search gives the same result as on a freshly started engine":
+   frame theorems about the memory the engine keeps between two searches (theories/SessionMem.v: the fields of
+   the Search struct classified as plumbing / per-search / persistent, NewSearch, NewGame, the initialisation
+   part of run(), initialize, ResizeCache, ClearHash, the setoption handlers of UciModel.v; the hash table is
+   TTImpl.tt of C11).  The search itself is the parameter [search_fn]; the only hypothesis is that its result
+   does not depend on the state of the evaluator object (C15_eval_step_indep).  Not reset by ucinewgame and
+   shown not to reach an untimed search: book, hadBookMove, lastSearchResult, the per-search fields.  The
+   guard [valid_step] (no "setoption name Hash" while a search is running) cannot be dropped:
+   C12_newgame_equals_fresh_refuted_hash_busy (reproduced on the real engine). *)
+From FG Require TTImpl SessionMem SessionMemProofs.
+
+Theorem C12_cleared_table_is_fresh :
+  forall (mb : Z) (ops : list TTImpl.op),
+         forallb SessionMem.keeps_size ops = true ->
+         TTImpl.clear (TTImpl.exec_from (TTImpl.new_tt mb) ops) = TTImpl.new_tt mb.
+Proof. exact SessionMemProofs.cleared_table_is_fresh. Qed.
+
+Theorem C12_cleared_observationally_fresh :
+  forall (mb : Z) (t : TTImpl.tt),
+         SessionMem.shape mb t ->
+         (forall k : N, TTImpl.probe (TTImpl.clear t) k = TTImpl.probe (TTImpl.new_tt mb) k) /\
+         (forall k : N, TTImpl.get_entry (TTImpl.clear t) k = TTImpl.get_entry (TTImpl.new_tt mb) k) /\
+         TTImpl.len (TTImpl.clear t) = 0%N /\
+         TTImpl.hashfull (TTImpl.clear t) = 0%N /\
+         (forall ops : list TTImpl.op, TTImpl.run_from (TTImpl.clear t) ops = TTImpl.run_from (TTImpl.new_tt mb) ops) /\
+         (forall ops : list TTImpl.op, TTImpl.exec_from (TTImpl.clear t) ops = TTImpl.exec_from (TTImpl.new_tt mb) ops).
+Proof. exact SessionMemProofs.cleared_observationally_fresh. Qed.
+
+Theorem C12_newgame_equals_fresh :
+  forall (position result bookT evalst scratch : Type) (startpos : position) (new_eval : evalst)
+         (scratch_new scratch_run : scratch) (book_load : option bookT)
+         (search_fn : SessionMem.cfgvec -> position -> UciModel.limits -> bool -> option TTImpl.tt -> N ->
+                      SessionMem.history -> evalst -> scratch -> SessionMem.outcome result evalst scratch),
+         (forall (v : SessionMem.cfgvec) (p : position) (l : UciModel.limits) (x : bool) (tv : option TTImpl.tt)
+                 (hf : N) (h : SessionMem.history) (e e' : evalst) (sc : scratch),
+            SessionMem.o_res (search_fn v p l x tv hf h e sc) = SessionMem.o_res (search_fn v p l x tv hf h e' sc)) ->
+         forall (c0 : UciModel.cfg) (steps quiet : list (SessionMem.step position result evalst scratch))
+                (p : position) (l : UciModel.limits) (bk bk' : option result) (c : UciModel.cfg),
+         forallb SessionMem.valid_step steps = true ->
+         forallb SessionMem.quiet_step quiet = true ->
+         SessionMem.untimed_depth l ->
+         let s := SessionMem.run_steps startpos scratch_run book_load
+                    (SessionMem.boot startpos new_eval scratch_new c0) steps in
+         let s' := SessionMem.run_steps startpos scratch_run book_load
+                     (SessionMem.newgame_step startpos s) (quiet ++ [SessionMem.StPosition p]) in
+         SessionMem.vec_of c = SessionMem.vec_of (SessionMem.s_cfg s') ->
+         SessionMem.run_search scratch_run book_load search_fn s' l bk =
+         SessionMem.fresh_result startpos new_eval scratch_new scratch_run book_load search_fn c p l bk'.
+Proof. exact SessionMemProofs.newgame_equals_fresh. Qed.
+
+Theorem C12_newgame_equals_fresh_depth :
+  forall (position result bookT evalst scratch : Type) (startpos : position) (new_eval : evalst)
+         (scratch_new scratch_run : scratch) (book_load : option bookT)
+         (search_fn : SessionMem.cfgvec -> position -> UciModel.limits -> bool -> option TTImpl.tt -> N ->
+                      SessionMem.history -> evalst -> scratch -> SessionMem.outcome result evalst scratch),
+         (forall (v : SessionMem.cfgvec) (p : position) (l : UciModel.limits) (x : bool) (tv : option TTImpl.tt)
+                 (hf : N) (h : SessionMem.history) (e e' : evalst) (sc : scratch),
+            SessionMem.o_res (search_fn v p l x tv hf h e sc) = SessionMem.o_res (search_fn v p l x tv hf h e' sc)) ->
+         forall (c0 : UciModel.cfg) (steps : list (SessionMem.step position result evalst scratch))
+                (p : position) (d : Z) (bk bk' : option result),
+         forallb SessionMem.valid_step steps = true ->
+         (0 < d)%Z ->
+         let s := SessionMem.run_steps startpos scratch_run book_load
+                    (SessionMem.boot startpos new_eval scratch_new c0) steps in
+         SessionMem.run_search scratch_run book_load search_fn
+           (SessionMem.set_pos (SessionMem.newgame_step startpos s) p) (SessionMem.depth_limits d) bk =
+         SessionMem.fresh_result startpos new_eval scratch_new scratch_run book_load search_fn
+           (SessionMem.s_cfg s) p (SessionMem.depth_limits d) bk'.
+Proof. exact SessionMemProofs.newgame_equals_fresh_depth. Qed.
+
+Theorem C12_fresh_setup_equals_boot :
+  forall (position result bookT evalst scratch : Type) (startpos : position) (new_eval : evalst)
+         (scratch_new scratch_run : scratch) (book_load : option bookT)
+         (search_fn : SessionMem.cfgvec -> position -> UciModel.limits -> bool -> option TTImpl.tt -> N ->
+                      SessionMem.history -> evalst -> scratch -> SessionMem.outcome result evalst scratch),
+         (forall (v : SessionMem.cfgvec) (p : position) (l : UciModel.limits) (x : bool) (tv : option TTImpl.tt)
+                 (hf : N) (h : SessionMem.history) (e e' : evalst) (sc : scratch),
+            SessionMem.o_res (search_fn v p l x tv hf h e sc) = SessionMem.o_res (search_fn v p l x tv hf h e' sc)) ->
+         forall (c0 : UciModel.cfg) (quiet : list (SessionMem.step position result evalst scratch))
+                (p : position) (l : UciModel.limits) (bk bk' : option result),
+         forallb SessionMem.quiet_step quiet = true ->
+         SessionMem.untimed_depth l ->
+         SessionMem.run_search scratch_run book_load search_fn
+           (SessionMem.run_steps startpos scratch_run book_load (SessionMem.boot startpos new_eval scratch_new c0)
+              (quiet ++ [SessionMem.StPosition p])) l bk =
+         SessionMem.fresh_result startpos new_eval scratch_new scratch_run book_load search_fn
+           (SessionMem.s_cfg (SessionMem.run_steps startpos scratch_run book_load
+                                (SessionMem.boot startpos new_eval scratch_new c0) quiet)) p l bk'.
+Proof. exact SessionMemProofs.fresh_setup_equals_boot. Qed.
+
+(* the guard [valid_step] cannot be dropped: Hash set while a search is running leaves Settings.Search.TTSize = 64
+   with a table of 65,536 slots; after ucinewgame the toy search of SessionMem.v sees a collision a fresh engine
+   with Hash = 64 does not have *)
+Theorem C12_newgame_equals_fresh_refuted_hash_busy :
+  exists (steps : list (SessionMem.step N SessionMem.toy_result N unit)) (p : N) (d : Z),
+    (0 < d)%Z /\
+    List.filter (fun st => negb (SessionMem.valid_step st)) steps = [SessionMem.StSetHashBusy [54%N; 52%N]] (* the bytes of "64" *) /\
+    let s := SessionMemProofs.toy_runs (SessionMemProofs.toy_boot SessionMem.toy_cfg) steps in
+    SessionMem.s_cfg s UciModel.TTSize = 64%Z /\
+    option_map TTImpl.cap (SessionMem.s_tt (SessionMem.newgame_step 1%N s)) = Some 65536%N /\
+    SessionMemProofs.toy_search_in (SessionMem.set_pos (SessionMem.newgame_step 1%N s) p) (SessionMem.depth_limits d)
+    <> SessionMemProofs.toy_fresh (SessionMem.s_cfg s) p (SessionMem.depth_limits d).
+Proof. exact SessionMemProofs.newgame_equals_fresh_refuted_hash_busy. Qed.
+
+Print Assumptions C12_cleared_table_is_fresh.
+Print Assumptions C12_cleared_observationally_fresh.
+Print Assumptions C12_newgame_equals_fresh.
+Print Assumptions C12_newgame_equals_fresh_depth.
+Print Assumptions C12_fresh_setup_equals_boot.
+Print Assumptions C12_newgame_equals_fresh_refuted_hash_busy.
+
+(* tie to the source: the field list of the Search struct, NewSearch, NewGame, the per-search resets of run() in
+   order, the fresh generators / PV lists, ucinewgame in uci.go, initialize / ResizeCache / ClearHash / the Hash
+   handler, where the persistent fields are assigned, hadBookMove read only under time control, every table access
+   of the tree search guarded by Settings.Search.UseTT (gen/Sites_gen.v is regenerated on every run by
+   tools/sites.py) *)
+From FG.gen Require Import Sites_gen.
+Theorem C12_sites_recognised : forallb (fun b => b) sites_C12 = true.
+Proof. vm_compute. reflexivity. Qed.
